@@ -714,5 +714,5 @@ func ruleNTOPAQUE(c *Ctx, r *Report) {
 			r.ok(rule, fnName(cur.f)+fmt.Sprintf("|$%d", cur.i), c.pos(cur.f.Pos()), "only measured, sliced, handed on or returned")
 		}
 	}
-	r.floor(rule, "functions receiving the operator stack", n, 14)
+	r.floor(rule, "functions receiving the operator stack", n, 12)
 }
